@@ -22,6 +22,7 @@ import (
 
 	"github.com/olive-io/bpmn/schema"
 	"github.com/olive-io/bpmn/v2/pkg/data"
+	"github.com/olive-io/bpmn/v2/pkg/tracing"
 )
 
 type nextTaskActionMessage struct {
@@ -55,7 +56,9 @@ func newTask(element schema.FlowNodeInterface, activityType ActivityType) constr
 	}
 }
 
-func (task *genericTask) run(ctx context.Context) {
+func (task *genericTask) run(ctx context.Context, sender tracing.ISenderHandle) {
+	defer sender.Done()
+
 	for {
 		select {
 		case msg := <-task.mch:
@@ -70,7 +73,10 @@ func (task *genericTask) run(ctx context.Context) {
 					return
 				}
 			case nextTaskActionMessage:
+				// the request goroutine sends traces: the tracer has to wait for it
+				requester := task.tracer.RegisterSender()
 				go func() {
+					defer requester.Done()
 					task.active.Add(1)
 					defer task.active.Add(-1)
 
@@ -118,7 +124,8 @@ func (task *genericTask) run(ctx context.Context) {
 
 func (task *genericTask) NextAction(ctx context.Context, flow Flow) chan IAction {
 	if task.active.CompareAndSwap(0, 1) {
-		go task.run(ctx)
+		sender := task.tracer.RegisterSender()
+		go task.run(ctx, sender)
 	}
 
 	response := make(chan IAction, 1)
